@@ -3,7 +3,7 @@
    * emit_token_cl   mirrors tokenAccum.emitToken (hclsyntax/token.go:131-169)
    * pos_at          the canonical position of a byte offset: count newline
                      clusters and grapheme clusters from the start position
-   * rs_scan / range_scanner  mirror RangeScanner.Scan (pos_scanner.go:61-139)
+   * rs_scan / range_scanner  mirror RangeScanner.Scan (pos_scanner.go:62-141)
 
    Grapheme-cluster segmentation (go-textseg) is NOT modelled: it is an oracle
    input. Two oracles appear, exactly as the Go code uses textseg:
@@ -15,10 +15,12 @@
    which is what textseg does whenever the token boundaries are cluster
    boundaries of the whole text (the property's own caveat).
 
-   Two conventions for "line break" exist in the code and are kept apart:
+   The two tests for "line break" in the code are transcribed as written:
      is_nl_lexer  a cluster that is exactly "\n" or "\r\n"   (emitToken)
-     is_nl_rs     a cluster whose first byte is '\r' or '\n' (RangeScanner)
-   They differ on a lone '\r' (PositionsProofs.conventions_differ). *)
+     is_nl_rs     a cluster whose last byte is '\n'           (RangeScanner)
+   They coincide on every segmentation in which a cluster ending in '\n' is
+   "\n" or "\r\n" (UAX #29 GB4/GB5; PositionsProofs.clusters_agree), in
+   particular a lone '\r' is an ordinary character for both. *)
 From HclV Require Import Base.Prelude Lex.Scanner.
 
 (* hcl.Pos, hcl.Range (pos.go) *)
@@ -35,8 +37,9 @@ Definition is_nl_lexer (c : list Z) : bool :=
   | [13; 10] => true
   | _ => false
   end.
+(* pos_scanner.go: `len(gr) != 0 && gr[len(gr)-1] == '\n'` *)
 Definition is_nl_rs (c : list Z) : bool :=
-  match c with b :: _ => (b =? 13) || (b =? 10) | [] => false end.
+  match c with [] => false | _ :: _ => last c 0 =? 10 end.
 
 (* Walk the clusters `cl` (byte lengths) of `b`: a line-break cluster moves to
    column 1 of the next line, any other cluster is one column.
@@ -185,42 +188,50 @@ Fixpoint rs_loop (new end_ : pos) (advanced toklen : Z) (adv : list Z) (cl : lis
       rs_loop new2 end' (advanced + zlen gr) toklen (skipn (Z.to_nat n) adv) cl'
   end.
 
-(* one successful Scan: returns (sc.cur, new sc.pos) *)
-Definition rs_scan (p : pos) (b : list Z) (advance toklen : Z) (cl : list Z) : range * pos :=
-  let adv := slice b (p_byte p) (p_byte p + advance) in
+(* one successful Scan: returns (sc.cur, new sc.pos); off = sc.off, the offset
+   within b of the next byte to process (sc.off += advance afterwards) *)
+Definition rs_scan (p : pos) (off : Z) (b : list Z) (advance toklen : Z) (cl : list Z) : range * pos :=
+  let adv := slice b off (off + advance) in
   let '(new, e) := rs_loop p p 0 toklen adv cl in
   (mkRange p e, new).
 
 (* The ranges visited by `for sc.Scan() { sc.Range() }`, for a split function
    whose successive results are `results` = (advance, len(token)) and with
-   cls = textseg's clusters of each `adv` slice. Note the test
-   `sc.pos.Byte >= len(sc.b)` and the slicing `sc.b[sc.pos.Byte:]`: the BYTE
-   FIELD OF THE START POSITION indexes the buffer. *)
-Fixpoint range_scanner (p : pos) (b : list Z) (results : list (Z * Z)) (cls : list (list Z)) : list range :=
+   cls = textseg's clusters of each `adv` slice. The reported position p and
+   the buffer offset off are separate: a fragment is scanned from its first
+   byte, the start position only offsets what is reported. *)
+Fixpoint rs_run (p : pos) (off : Z) (b : list Z) (results : list (Z * Z)) (cls : list (list Z)) : list range :=
   match results with
   | [] => []
   | (advance, toklen) :: rs =>
-      if zlen b <=? p_byte p then []
+      if zlen b <=? off then []
       else
         let cl := match cls with c :: _ => c | [] => [] end in
-        let '(rg, new) := rs_scan p b advance toklen cl in
-        rg :: range_scanner new b rs (tl cls)
+        let '(rg, new) := rs_scan p off b advance toklen cl in
+        rg :: rs_run new (off + advance) b rs (tl cls)
   end.
 
-(* same, the per-step clusters taken from the segmentation of b[start.Byte:] *)
-Fixpoint range_scanner_gcs (p : pos) (b : list Z) (results : list (Z * Z)) (rest : list Z) : option (list range) :=
+(* NewRangeScannerFragment(b, _, start, cb): pos = start, off = 0 *)
+Definition range_scanner (start : pos) (b : list Z) (results : list (Z * Z)) (cls : list (list Z)) : list range :=
+  rs_run start 0 b results cls.
+
+(* same, the per-step clusters taken from the segmentation of b *)
+Fixpoint rs_run_gcs (p : pos) (off : Z) (b : list Z) (results : list (Z * Z)) (rest : list Z) : option (list range) :=
   match results with
   | [] => Some []
   | (advance, toklen) :: rs =>
-      if zlen b <=? p_byte p then Some []
+      if zlen b <=? off then Some []
       else
         match split_cl rest advance with
         | None => None
         | Some (cl, rest') =>
-            let '(rg, new) := rs_scan p b advance toklen cl in
-            match range_scanner_gcs new b rs rest' with
+            let '(rg, new) := rs_scan p off b advance toklen cl in
+            match rs_run_gcs new (off + advance) b rs rest' with
             | Some l => Some (rg :: l)
             | None => None
             end
         end
   end.
+
+Definition range_scanner_gcs (start : pos) (b : list Z) (results : list (Z * Z)) (gcs : list Z) : option (list range) :=
+  rs_run_gcs start 0 b results gcs.
